@@ -441,7 +441,11 @@ func runC03(c *Ctx) {
 			}
 			rest := in[n+int(v):]
 			if len(rest) >= 64 {
-				proofOk = new(dleq.Proof).UnmarshalBinary(group.Ristretto255, rest[:64]) == nil
+				pr := new(dleq.Proof)
+				if pr.UnmarshalBinary(group.Ristretto255, rest[:64]) == nil {
+					canon, err := pr.MarshalBinary()
+					proofOk = err == nil && bytes.Equal(canon, rest[:64]) // canonical encodings only
+				}
 			}
 			if elemOk && proofOk && int(v)/32 == 3 {
 				_, err := w.st5.FinalizeTokens(in)
